@@ -26,7 +26,7 @@ From Coq Require String.
 Import ListNotations String.StringSyntax.
 Delimit Scope string_scope with str.
 From PV Require Import Generated.Reject Generated.SkyMask Generated.MaskInterp.
-From PV Require Import C17.Model C17.ProofsDilate C17.ProofsReject C17.ProofsInterp C17.ProofsAxis C17.ProofsMedian C17.ProofsSky.
+From PV Require Import C17.Model C17.ProofsDilate C17.ProofsReject C17.ProofsInterp C17.ProofsAxis C17.ProofsLines C17.ProofsMedian C17.ProofsSky.
 Open Scope Q_scope.
 
 (* ================================================================ dilation *)
@@ -260,6 +260,21 @@ Theorem C17_maskinterp_axis_S : forall (ys : list Q) (mask : list bool) (xval : 
 Proof. exact maskinterp_axis_spec. Qed.
 Print Assumptions C17_maskinterp_axis_S.
 
+(* the lines themselves are derived in Coq from (shape, axis) -- lines_pydl, pydl's IDL-style axis numbering --
+   and compared with numpy.moveaxis on every run: they are disjoint and cover exactly the flat indices *)
+Theorem C17_lines_partition : forall (shape : list nat) (axis : nat), (axis < length shape)%nat ->
+  NoDup (concat (lines_pydl shape axis)) /\ forall k, In k (concat (lines_pydl shape axis)) <-> (k < prod shape)%nat.
+Proof. exact lines_pydl_partition. Qed.
+Print Assumptions C17_lines_partition.
+
+Theorem C17_maskinterp_axis_of_shape : forall (ys : list Q) (mask : list bool) (xval : option (list Q))
+    (shape : list nat) (axis : nat) (line : list nat),
+  (axis < length shape)%nat -> prod shape = length ys -> In line (lines_pydl shape axis) ->
+  gather 0 (maskinterp_nd_model ys mask xval (lines_pydl shape axis)) line
+  = maskinterp1_model (gather 0 ys line) (gather false mask line) (option_map (fun xs => gather 0 xs line) xval).
+Proof. exact maskinterp_axis_shape. Qed.
+Print Assumptions C17_maskinterp_axis_of_shape.
+
 (* ================================================================ aesthetics *)
 
 (* aesthetics_support.  DESIGN.md states: ivar_i <> 0 -> out_i = flux_i for the four methods.  That full
@@ -296,6 +311,14 @@ Theorem C17_median_reflect_spec : forall (xs : list Z) (h : nat), (1 <= h)%nat -
   median_reflect_model xs (2 * Z.of_nat h + 1) = MOk (median_reflect_spec xs (2 * Z.of_nat h + 1)).
 Proof. exact median_reflect_model_eq_spec. Qed.
 Print Assumptions C17_median_reflect_spec.
+
+(* the total statement, ValueError class included: for every width >= 1 and every non-empty array M = S, where S
+   returns the input for width 1, refuses (ValueError) an even width and an array shorter than ceil(width/2)
+   with more than one sample, and otherwise is the reflected-window median *)
+Theorem C17_median_reflect_total : forall (xs : list Z) (w : Z), (1 <= w)%Z -> xs <> [] ->
+  median_reflect_model xs w = median_reflect_total_spec xs w.
+Proof. exact median_reflect_model_total. Qed.
+Print Assumptions C17_median_reflect_total.
 
 (* S's reflection repeats the edge sample: -1-j on the left, 2n-1-j on the right *)
 Theorem C17_reflect_is_symmetric : forall n j : Z, (0 < n)%Z -> (- n <= j < 2 * n)%Z ->
